@@ -252,9 +252,10 @@ def gen_id(g, concat=None):
             axes = g.pick_axes(rng.randint(0, 4), exclude=used, maxprod=300)
             used |= {a.name for a in axes}
             in_axes = list(axes)
-            if axes and rng.random() < 0.15:
-                # diagonal: repeat one name in the input
-                in_axes.insert(rng.randint(0, len(in_axes)), rng.choice(axes).copy())
+            if axes and rng.random() < 0.3:
+                # diagonal: repeat one name in the input (not only in trailing position), possibly twice
+                for _ in range(rng.choice([1, 1, 2])):
+                    in_axes.insert(rng.randint(0, len(in_axes)), rng.choice(axes).copy())
             ins.append(g.arrange(in_axes))
             out_axes = g.perm(axes)
             if rng.random() < 0.2:
@@ -312,7 +313,7 @@ def gen_elementwise(g):
     for _ in range(n):
         sub = [a for a in U if rng.random() < 0.7]
         sub = g.perm(sub)
-        if sub and rng.random() < 0.08:
+        if sub and rng.random() < 0.15:
             sub.insert(rng.randint(0, len(sub)), rng.choice(sub).copy())
         ins.append(g.arrange(sub))
     present = []
@@ -372,7 +373,7 @@ def gen_reduce(g):
 def gen_dot(g):
     rng = g.rng
     n = 2 if rng.random() < 0.85 else 3
-    axes = g.pick_axes(rng.randint(1, 5), maxprod=120)
+    axes = g.pick_axes(rng.randint(1, 6), maxprod=200)
     ins_axes = [[] for _ in range(n)]
     out_axes = []
     for a in axes:
@@ -383,7 +384,7 @@ def gen_dot(g):
                 c = a.copy()
                 c.marked = True
                 ins_axes[k].append(c)
-        elif r < 0.5:    # batch: in two or more inputs and in the output
+        elif r < 0.65:   # batch: in two or more inputs and in the output (each input lists its batch axes in its own order)
             ks = rng.sample(range(n), rng.randint(2, n))
             for k in ks:
                 ins_axes[k].append(a.copy())
@@ -520,6 +521,20 @@ def gen_index(g, update=False):
                 cvec.append(l.copy())
     pool = cvec + [a.copy() for a in Ut if a.name not in [p.name for p in cvec]]
     usub = g.perm([a for a in pool if rng.random() < 0.7])
+    if rng.random() < 0.35:
+        # updates and coordinates each get an axis (of length > 1) that the other lacks
+        only_u = [a.copy() for a in Ut if a.size > 1 and a.name not in [p.name for p in cvec]]
+        only_c = [a for a in cvec if a.size > 1]
+        if only_u and only_c:
+            drop = rng.choice(only_c).name
+            usub = [a for a in usub if a.name != drop]
+            if only_u[0].name not in [a.name for a in usub]:
+                usub.append(only_u[0])
+            usub = g.perm(usub)
+    if rng.random() < 0.3:
+        # an axis that occurs in the updates only (every combination with the coordinate axes is one loop iteration)
+        fresh = g.pick_axes(1, exclude={a.name for a in T} | {a.name for a in extra}, sizes=[2, 3], maxprod=3)
+        usub.insert(rng.randint(0, len(usub)), fresh[0])
     udims = g.arrange(usub, units=0.05, flat=0.15)
     uarr = int_data(rng, shape_of(udims), 1, 9, ramp=(op == "set_at"))
     c = Call("update_at", op, [tdims] + coords + [udims], [[d.copy() for d in tdims]], [tarr] + data + [uarr])
